@@ -240,6 +240,12 @@ def fixed_module():
     I = lambda lo, hi: {'k': 'INTEGER', 'c': {'lo': lo, 'hi': hi, 'ext': False}, 'named': None}
     types = [
         ('E0', E('a', 'b')),
+        # extensible ENUMERATED (with and without additions) in every position: member, element, addition, alternative
+        ('E1', dict(E('a', 'b'), ext=[('c', 5)])),
+        ('E2', dict(E('a', 'b', 'c'), ext=[])),
+        ('G2', {'k': 'SEQUENCE', 'root': [mem('e', ref('E1')), mem('l', {'k': 'SEQUENCE OF', 'elem': ref('E2'), 'size': None}),
+                                           mem('c', {'k': 'CHOICE', 'ext': [], 'root': [mem('x', ref('E1')), mem('n', {'k': 'NULL'})]})],
+                'ext': [{'member': mem('z', ref('E2'), 'optional')}]}),
         ('G1', {'k': 'SEQUENCE', 'root': [mem('e', ref('E0')), mem('i', I(0, 7), 'optional')],
                 'ext': [{'member': mem('x', E('c', 'd'), 'optional')},
                         {'member': mem('y', I(0, 3))},
@@ -261,6 +267,8 @@ def fixed_module():
     mod = {'name': 'M', 'tags': 'AUTOMATIC', 'ext_implied': False, 'types': types, 'values': []}
     values = {
         'E0': ['a'],
+        'E1': ['c'],
+        'G2': [{'e': 'a', 'l': ['a', 'c'], 'c': ('x', 'c'), 'z': 'b'}, {'e': 'c', 'l': [], 'c': ('n', None)}],
         'G1': [{'e': 'a', 'i': 3, 'x': 'c', 'y': 1, 'g1': 'p', 'g2': True}, {'e': 'b', 'x': 'd'}],
         'C1': [('node', {'l': ('node', {'l': ('leaf', 1), 'e': 'a'}), 'e': 'b'})],
         'R1': [{'v': 1, 'e': 'a', 'next': {'v': 2, 'e': 'b', 'next': {'v': 3, 'e': 'a', 'next': {'v': 0, 'e': 'a'}}}}],
